@@ -1021,7 +1021,12 @@ func c11Gen(r *Rng, tier string, idx int) (string, func() string) {
 	if idx == 0 {
 		return "kind facts", func() string { return c11Facts() }
 	}
+	if idx == 150 {
+		return c11HW(idx, r, true) // the one (6 s) case in which the Abaco packet stream ends by itself
+	}
 	switch c := r.Intn(100); {
+	case c < 5:
+		return c11HW(idx, r, false)
 	case c < 12:
 		return c11Pair(idx, r)
 	case c < 50:
